@@ -32,6 +32,22 @@ def writer_cases(tier, rng):
                 nid += 1; b = rng.choice([0, 10, 3000, 10 ** 6]); ls.append("W rot %d %d" % (nid, b)); intended[nid] = 0; budgets[nid] = b; seg.append(("rot", nid))
         nid += 1; ls.append("W rot %d 1000000" % nid); seg.append(("rot", nid))      # every earlier output is closed by a rotation
         cases.append({"id": "w%d" % i, "script": ls, "kind": kind, "comp": comp, "seg": seg, "budgets": budgets, "meta": {"kind": "writer/%s/%s" % (kind, comp)}})
+    # recovery at writer level: an output that fails (while it is written or only while it is closed: compressed outputs emit most of their
+    # bytes at the end), a rotation onto a destination that accepts everything, and THEN further writes and a closing rotation - the new
+    # output must take them (no exception) and be complete, whatever state the failure left the old one in
+    for j in range(18 if tier == "quick" else 400):
+        kind = "fd" if j % 3 != 2 else "name"
+        comp = ["gzip", "xz", "none"][j % 3] if j % 2 == 0 else rng.choice(["gzip", "xz"])
+        b0 = rng.choice([0, 1, 10, 30, 200, 3000])
+        ls = ["CASE w", "W new %s %s 1 %d" % (kind, comp, b0)]
+        seg, budgets = [("new", 1)], {1: b0, 2: 10 ** 6, 3: 10 ** 6}
+        for _ in range(rng.choice([1, 2, 3])):
+            data = bytes(rng.getrandbits(8) for _ in range(rng.choice([1, 100, 5000]))); ls.append("W write " + data.hex()); seg.append(("w", 1, data))
+        ls.append("W rot 2 1000000"); seg.append(("rot", 2))
+        for _ in range(rng.choice([1, 2, 4])):
+            data = bytes(rng.getrandbits(8) for _ in range(rng.choice([1, 100, 5000]))); ls.append("W write " + data.hex()); seg.append(("w", 2, data))
+        ls.append("W rot 3 1000000"); seg.append(("rot", 3))
+        cases.append({"id": "wr%d" % j, "script": ls, "kind": kind, "comp": comp, "seg": seg, "budgets": budgets, "meta": {"kind": "writer-recovery/%s/%s" % (kind, comp)}})
     return cases
 
 def check_writer_case(c, il, files):
@@ -47,7 +63,13 @@ def check_writer_case(c, il, files):
         r = res[k] if k < len(res) else "<missing>"; k += 1
         if s[0] == "w":
             data[cur] += s[2]
-            if r.startswith("throw"): threw[cur] = True
+            if r.startswith("throw"):
+                threw[cur] = True
+                # recovery: a destination that accepts everything (budget never reached) must take the writes that follow the rotation onto it,
+                # whatever happened to the outputs before it
+                if c["budgets"].get(cur, 0) >= 10 ** 6 and len(data[cur]) < 400000:
+                    return ("write() to output %d (%s, %s) threw although the destination accepts everything (budget %d bytes, %d written so far): "
+                            "a failure of an EARLIER output is carried over the rotation" % (cur, c["kind"], c["comp"], c["budgets"][cur], len(data[cur]))), None
         else:
             # a rotation that throws has not rotated: the output stays open (and has now seen an exception), the destination is not used
             if r.startswith("throw"): threw[cur] = True; continue
